@@ -147,6 +147,9 @@ def _worker(args):
         sys.stdout = sys.stderr = open(os.devnull, "w")
     import importlib
 
+    from mc import cov
+
+    cov.start()  # development aid, only with VERIF_COV=<dir>
     mod = importlib.import_module(modname)
     if hasattr(mod, "configure"):
         mod.configure(options)
@@ -206,6 +209,7 @@ def _worker(args):
         if isinstance(v, set):
             d["extra"][k] = sorted(v, key=repr)
     d["wall"] = time.time() - t0
+    cov.dump()
     return d
 
 
@@ -478,6 +482,10 @@ def forked(fn, *args):
             except BaseException as e:  # noqa
                 res = dict(ok=False, exc=type(e).__name__, msg=str(e)[:500], tb=traceback.format_exc()[-1500:])
             data = json.dumps(res, default=repr).encode()
+            if os.environ.get("VERIF_COV"):
+                from mc import cov
+
+                cov.dump()
             view = memoryview(data)
             while view:
                 n = os.write(w, view[: 1 << 16])
